@@ -8,9 +8,7 @@ Open Scope Z_scope.
 Ltac Zify.zify_post_hook ::= Z.to_euclidean_division_equations.
 
 Lemma as_member_dom t enc x : in_dom t x = true -> as_member t enc x = enc x.
-Proof.
-  intros H. destruct t; try reflexivity. cbn [in_dom] in H. destruct x; try discriminate H. reflexivity.
-Qed.
+Proof. reflexivity. Qed.
 
 (* an encoding [b] of [x] that decodes back, whatever follows it *)
 Definition good (e : ty) (x : val) (b : bytes) : Prop :=
@@ -88,8 +86,10 @@ Proof.
   - destruct f'; [cbn in Hf'; lia|]. cbn [concat decode_all]. now rewrite Hem.
   - destruct f' as [|f']; [cbn in Hf'; lia|]. inversion Hne as [|? ? Hb Hne']; subst.
     cbn [concat] in *. rewrite app_length in Hf. cbn [decode_all length map].
-    rewrite <- (app_nil_r (concat bss)) at 1. rewrite app_assoc, app_nil_r.
-    rewrite Hdec by lia. rewrite IH by (try assumption; cbn in Hf'; lia). reflexivity.
+    rewrite Hdec by lia.
+    destruct (length (concat bss) =? length (b ++ concat bss))%nat eqn:E.
+    + apply Nat.eqb_eq in E. rewrite app_length in E. destruct b; [congruence|cbn [length] in E; lia].
+    + rewrite IH by (try assumption; cbn in Hf'; lia). reflexivity.
 Qed.
 
 Lemma concat_length_ge (bss : list bytes) :
@@ -109,26 +109,34 @@ Proof.
 Qed.
 
 (* ---- Array(n, T), T not a bit string *)
-Lemma rt_TArrFixed_plain n e :
-  is_bits e = false -> RT e -> RT (TArrFixed n e).
+Lemma arr_plain_form n e l :
+  is_bits e = false -> RT e -> wf_ty (TArrFixed n e) = true -> in_dom (TArrFixed n e) (VList l) = true ->
+  exists bss, Forall2 (good e) (firstn n l) bss /\ forallb (in_dom e) (firstn n l) = true
+              /\ length (firstn n l) = n /\ encode (TArrFixed n e) (VList l) = Ok (concat bss).
 Proof.
-  intros Hnb Hrt Hwf v rest Hd _. cbn [wf_ty] in Hwf.
-  apply andb_prop in Hwf as [Hwf Hg]. apply andb_prop in Hwf as [Hwf Hi].
-  apply negb_true_iff in Hg, Hi.
-  cbn [in_dom] in Hd. destruct v; try discriminate Hd.
+  intros Hnb Hrt Hwf Hd. cbn [wf_ty] in Hwf.
+  apply andb_prop in Hwf as [Hwf Hg]. apply negb_true_iff in Hg. cbn [in_dom] in Hd.
   assert (Hd' : (Z.of_nat n <=? zlen l) && forallb (in_dom e) (firstn n l) = true) by (destruct e; try exact Hd; discriminate Hnb).
   clear Hd. apply andb_prop in Hd' as [Hl Hd].
   destruct (list_good e _ Hrt Hwf Hg Hd) as (bss & Hbss).
   assert (Hlen : length (firstn n l) = n) by (rewrite firstn_length; unfold zlen in Hl; lia).
-  exists (concat bss). split.
-  - cbn [encode]. unfold array_encode. cbn [py_len bind].
-    destruct (zlen l <? Z.of_nat n) eqn:E; [lia|]. cbn [bind]. rewrite Hi.
-    replace (bits_width e) with (@None nat) by (destruct e; try reflexivity; discriminate Hnb).
-    rewrite encode_items_list by (unfold zlen in Hl; lia). cbn [skipn].
-    now rewrite (enc_all_good _ _ _ Hbss Hd).
-  - intros fuel Hf. cbn [decode_fuel]. unfold array_decode_fixed. rewrite Hnb, Hi.
-    rewrite <- Hlen at 1. rewrite (decode_n_good _ _ _ _ _ Hbss Hf). cbn [dbind dwrap].
-    cbn [norm]. destruct e; try reflexivity. discriminate Hnb.
+  exists bss. repeat split; try assumption.
+  cbn [encode]. unfold array_encode. cbn [py_len bind].
+  destruct (zlen l <? Z.of_nat n) eqn:E; [lia|]. cbn [bind].
+  replace (bits_width e) with (@None nat) by (destruct e; try reflexivity; discriminate Hnb).
+  rewrite encode_items_list by (unfold zlen in Hl; lia). cbn [skipn].
+  now rewrite (enc_all_good _ _ _ Hbss Hd).
+Qed.
+
+Lemma rt_TArrFixed_plain n e :
+  is_bits e = false -> RT e -> RT (TArrFixed n e).
+Proof.
+  intros Hnb Hrt Hwf v rest Hd _. destruct v; try (cbn [in_dom] in Hd; discriminate Hd).
+  destruct (arr_plain_form n e l Hnb Hrt Hwf Hd) as (bss & Hbss & Hdd & Hlen & He).
+  exists (concat bss). split; [exact He|].
+  intros fuel Hf. cbn [decode_fuel]. unfold array_decode_fixed. rewrite Hnb.
+  rewrite <- Hlen at 1. rewrite (decode_n_good _ _ _ _ _ Hbss Hf). cbn [dbind dwrap array_flatten].
+  cbn [norm]. destruct e; try reflexivity. discriminate Hnb.
 Qed.
 
 (* ---- Array(n, BYTE/WORD/DWORD/LWORD): the value is the flat list of bits *)
@@ -203,34 +211,59 @@ Proof. induction xs as [|x xs IH]; [reflexivity|]. cbn [map]. rewrite IH. reflex
 Lemma match_pos {A} (c : nat) (a b : A) : (0 < c)%nat -> match c with O => a | S _ => b end = b.
 Proof. destruct c; [lia|reflexivity]. Qed.
 
-Lemma rt_TArrFixed_bits n w : RT (TArrFixed n (TBits w)).
+(* the flat list of n * 8w bits, encoded by Array.encode with any [fixed] that does not reject it *)
+Lemma bits_array_form fixed n w l :
+  (0 < w)%nat -> length l = (n * (w * 8))%nat -> forallb is_vbool l = true ->
+  match fixed with Some k => (Z.of_nat k <= zlen l) | None => True end ->
+  exists xs bss, Forall2 (good (TBits w)) xs bss /\ forallb (in_dom (TBits w)) xs = true
+              /\ length xs = n /\ chain_vals xs = Ok l
+              /\ array_encode fixed (Some w) (as_member (TBits w) (encode (TBits w))) (VList l) = Ok (concat bss).
 Proof.
-  intros Hwf v rest Hd _. cbn [wf_ty is_instance greedy negb andb] in Hwf. rewrite !andb_true_r in Hwf.
-  cbn [in_dom] in Hd. destruct v; try discriminate Hd. apply andb_prop in Hd as [Hl Hb].
-  assert (Hw : (0 < w)%nat) by lia.
-  assert (Hlen : length l = (n * (w * 8))%nat) by (unfold zlen in Hl; lia).
+  intros Hw Hlen Hb Hfix.
   set (cs := chunks_of n (w * 8) l).
   pose proof (chunks_in_dom w n l Hlen Hb) as Hcd. fold cs in Hcd.
-  destruct (list_good (TBits w) (map VList cs) (rt_TBits w) Hwf eq_refl Hcd) as (bss & Hbss).
-  exists (concat bss). split.
-  - cbn [encode bits_width is_instance]. unfold array_encode. cbn [py_len bind].
-    assert (Hge : Z.of_nat n <= zlen l) by (unfold zlen; rewrite Hlen; nia).
-    destruct (zlen l <? Z.of_nat n) eqn:E; [lia|]. cbn [bind].
-    rewrite match_pos by lia.
+  assert (Hwfb : wf_ty (TBits w) = true) by (cbn [wf_ty]; apply Nat.ltb_lt; exact Hw).
+  destruct (list_good (TBits w) (map VList cs) (rt_TBits w) Hwfb eq_refl Hcd) as (bss & Hbss).
+  exists (map VList cs), bss. repeat split; try assumption.
+  - rewrite map_length. unfold cs. apply chunks_of_length.
+  - rewrite chain_vals_lists. unfold cs. now rewrite chunks_of_concat.
+  - unfold array_encode. cbn [py_len bind].
+    assert (Hlen0 : exists len0, match fixed with
+                                 | Some n0 => if zlen l <? Z.of_nat n0 then Err DataError else Ok n0
+                                 | None => Ok (Z.to_nat (zlen l))
+                                 end = Ok len0).
+    { destruct fixed as [k|]; [|eauto]. destruct (zlen l <? Z.of_nat k) eqn:E; [lia|eauto]. }
+    destruct Hlen0 as (len0 & ->). cbn [bind]. rewrite match_pos by lia.
     replace (Z.to_nat (zlen l)) with (length l) by (unfold zlen; lia).
-    pose proof (chunk_vals_chunks (w * 8) cs [] (S (length l)) ltac:(lia)
-                  (chunks_of_each n (w * 8) l Hlen)) as Hcv.
+    pose proof (chunk_vals_chunks (w * 8) cs [] (S (length l)) ltac:(lia) (chunks_of_each n (w * 8) l Hlen)) as Hcv.
     cbn [app length] in Hcv. unfold cs in Hcv at 2 3. rewrite chunks_of_concat in Hcv by exact Hlen.
-    rewrite Hcv by (unfold cs; rewrite chunks_of_length; unfold zlen in Hl; nia). cbn [bind].
+    rewrite Hcv by (unfold cs; rewrite chunks_of_length; nia). cbn [bind].
     replace (Z.to_nat (zlen l / Z.of_nat (w * 8))) with n by (unfold zlen; rewrite Hlen; nia).
     rewrite encode_items_list by (rewrite map_length; unfold cs; rewrite chunks_of_length; lia).
     cbn [skipn]. rewrite firstn_all2 by (rewrite map_length; unfold cs; rewrite chunks_of_length; lia).
-    change (bits_encode w) with (encode (TBits w)).
     now rewrite (enc_all_good _ _ _ Hbss Hcd).
-  - intros fuel Hf. cbn [decode_fuel is_bits is_instance]. unfold array_decode_fixed.
-    replace n with (length (map VList cs)) at 1 by (rewrite map_length; unfold cs; now rewrite chunks_of_length).
-    rewrite (decode_n_good _ _ _ _ _ Hbss Hf). cbn [dbind]. rewrite norm_bits_id, chain_vals_lists.
-    unfold cs. rewrite chunks_of_concat by exact Hlen. reflexivity.
+Qed.
+
+Lemma arr_bits_form n w l :
+  wf_ty (TArrFixed n (TBits w)) = true -> in_dom (TArrFixed n (TBits w)) (VList l) = true ->
+  exists xs bss, Forall2 (good (TBits w)) xs bss /\ forallb (in_dom (TBits w)) xs = true
+              /\ length xs = n /\ chain_vals xs = Ok l /\ encode (TArrFixed n (TBits w)) (VList l) = Ok (concat bss).
+Proof.
+  intros Hwf Hd. cbn [wf_ty greedy negb andb] in Hwf. rewrite andb_true_r in Hwf.
+  cbn [in_dom] in Hd. apply andb_prop in Hd as [Hl Hb].
+  assert (Hw : (0 < w)%nat) by lia.
+  assert (Hlen : length l = (n * (w * 8))%nat) by (unfold zlen in Hl; lia).
+  cbn [encode bits_width]. apply (bits_array_form (Some n) n w l Hw Hlen Hb). unfold zlen. rewrite Hlen. nia.
+Qed.
+
+Lemma rt_TArrFixed_bits n w : RT (TArrFixed n (TBits w)).
+Proof.
+  intros Hwf v rest Hd _. destruct v; try (cbn [in_dom] in Hd; discriminate Hd).
+  destruct (arr_bits_form n w l Hwf Hd) as (xs & bss & Hbss & Hcd & Hlen & Hch & He).
+  exists (concat bss). split; [exact He|].
+  intros fuel Hf. cbn [decode_fuel is_bits]. unfold array_decode_fixed.
+  rewrite <- Hlen at 1. rewrite (decode_n_good _ _ _ _ _ Hbss Hf). cbn [dbind array_flatten]. rewrite norm_bits_id, Hch.
+  reflexivity.
 Qed.
 
 Lemma rt_TArrFixed n e : RT e -> RT (TArrFixed n e).
@@ -243,57 +276,7 @@ Qed.
 Lemma Forall2_len {A B} (R : A -> B -> Prop) la lb : Forall2 R la lb -> length la = length lb.
 Proof. induction 1; cbn [length]; congruence. Qed.
 
-(* ---- explicit forms of the array encodings, fixed widths, always-decoding arrays *)
-Lemma arr_plain_form n e l :
-  is_bits e = false -> RT e -> wf_ty (TArrFixed n e) = true -> in_dom (TArrFixed n e) (VList l) = true ->
-  exists bss, Forall2 (good e) (firstn n l) bss /\ forallb (in_dom e) (firstn n l) = true
-              /\ length (firstn n l) = n /\ encode (TArrFixed n e) (VList l) = Ok (concat bss).
-Proof.
-  intros Hnb Hrt Hwf Hd. cbn [wf_ty] in Hwf.
-  apply andb_prop in Hwf as [Hwf Hg]. apply andb_prop in Hwf as [Hwf Hi].
-  apply negb_true_iff in Hg, Hi. cbn [in_dom] in Hd.
-  assert (Hd' : (Z.of_nat n <=? zlen l) && forallb (in_dom e) (firstn n l) = true) by (destruct e; try exact Hd; discriminate Hnb).
-  clear Hd. apply andb_prop in Hd' as [Hl Hd].
-  destruct (list_good e _ Hrt Hwf Hg Hd) as (bss & Hbss).
-  assert (Hlen : length (firstn n l) = n) by (rewrite firstn_length; unfold zlen in Hl; lia).
-  exists bss. repeat split; try assumption.
-  cbn [encode]. unfold array_encode. cbn [py_len bind].
-  destruct (zlen l <? Z.of_nat n) eqn:E; [lia|]. cbn [bind]. rewrite Hi.
-  replace (bits_width e) with (@None nat) by (destruct e; try reflexivity; discriminate Hnb).
-  rewrite encode_items_list by (unfold zlen in Hl; lia). cbn [skipn].
-  now rewrite (enc_all_good _ _ _ Hbss Hd).
-Qed.
-
-Lemma arr_bits_form n w l :
-  wf_ty (TArrFixed n (TBits w)) = true -> in_dom (TArrFixed n (TBits w)) (VList l) = true ->
-  exists xs bss, Forall2 (good (TBits w)) xs bss /\ forallb (in_dom (TBits w)) xs = true
-              /\ length xs = n /\ encode (TArrFixed n (TBits w)) (VList l) = Ok (concat bss).
-Proof.
-  intros Hwf Hd. cbn [wf_ty is_instance greedy negb andb] in Hwf. rewrite !andb_true_r in Hwf.
-  cbn [in_dom] in Hd. apply andb_prop in Hd as [Hl Hb].
-  assert (Hw : (0 < w)%nat) by lia.
-  assert (Hlen : length l = (n * (w * 8))%nat) by (unfold zlen in Hl; lia).
-  set (cs := chunks_of n (w * 8) l).
-  pose proof (chunks_in_dom w n l Hlen Hb) as Hcd. fold cs in Hcd.
-  destruct (list_good (TBits w) (map VList cs) (rt_TBits w) Hwf eq_refl Hcd) as (bss & Hbss).
-  exists (map VList cs), bss. repeat split; try assumption.
-  - rewrite map_length. unfold cs. apply chunks_of_length.
-  - cbn [encode bits_width is_instance]. unfold array_encode. cbn [py_len bind].
-    assert (Hge : Z.of_nat n <= zlen l) by (unfold zlen; rewrite Hlen; nia).
-    destruct (zlen l <? Z.of_nat n) eqn:E; [lia|]. cbn [bind].
-    rewrite match_pos by lia.
-    replace (Z.to_nat (zlen l)) with (length l) by (unfold zlen; lia).
-    pose proof (chunk_vals_chunks (w * 8) cs [] (S (length l)) ltac:(lia)
-                  (chunks_of_each n (w * 8) l Hlen)) as Hcv.
-    cbn [app length] in Hcv. unfold cs in Hcv at 2 3. rewrite chunks_of_concat in Hcv by exact Hlen.
-    rewrite Hcv by (unfold cs; rewrite chunks_of_length; unfold zlen in Hl; nia). cbn [bind].
-    replace (Z.to_nat (zlen l / Z.of_nat (w * 8))) with n by (unfold zlen; rewrite Hlen; nia).
-    rewrite encode_items_list by (rewrite map_length; unfold cs; rewrite chunks_of_length; lia).
-    cbn [skipn]. rewrite firstn_all2 by (rewrite map_length; unfold cs; rewrite chunks_of_length; lia).
-    change (bits_encode w) with (encode (TBits w)).
-    now rewrite (enc_all_good _ _ _ Hbss Hcd).
-Qed.
-
+(* ---- fixed widths, always-decoding arrays *)
 Lemma concat_fixed_length e xs bss w :
   Forall2 (good e) xs bss -> forallb (in_dom e) xs = true -> FW e -> fixed_width e = Some w -> wf_ty e = true ->
   length (concat bss) = (length xs * w)%nat.
@@ -308,11 +291,11 @@ Proof.
   intros Hrt Hfw w v bs Hw Hwf Hd He. cbn [fixed_width] in Hw.
   destruct (fixed_width e) as [we|] eqn:Ew; [|discriminate]. injection Hw as <-.
   assert (Hwfe : wf_ty e = true).
-  { cbn [wf_ty] in Hwf. apply andb_prop in Hwf as [Hwf _]. now apply andb_prop in Hwf as [Hwf _]. }
+  { cbn [wf_ty] in Hwf. now apply andb_prop in Hwf as [Hwf _]. }
   destruct v; try (cbn [in_dom] in Hd; discriminate Hd).
   destruct (is_bits e) eqn:Eb.
   - destruct e; try discriminate Eb.
-    destruct (arr_bits_form n w l Hwf Hd) as (xs & bss & H1 & H2 & H3 & H4).
+    destruct (arr_bits_form n w l Hwf Hd) as (xs & bss & H1 & H2 & H3 & _ & H4).
     rewrite He in H4. injection H4 as ->. rewrite (concat_fixed_length _ _ _ _ H1 H2 Hfw Ew Hwfe). now rewrite H3.
   - destruct (arr_plain_form n e l Eb Hrt Hwf Hd) as (bss & H1 & H2 & H3 & H4).
     rewrite He in H4. injection H4 as ->. rewrite (concat_fixed_length _ _ _ _ H1 H2 Hfw Ew Hwfe). now rewrite H3.
@@ -344,11 +327,10 @@ Qed.
 
 Lemma ad_TArrFixed n e : AD e -> AD (TArrFixed n e).
 Proof.
-  intros Had w bs rest fuel Ha Hw Hl. cbn [always_decodes] in Ha. apply andb_prop in Ha as [Ha Hi].
-  apply negb_true_iff in Hi. cbn [fixed_width] in Hw.
+  intros Had w bs rest fuel Ha Hw Hl. cbn [always_decodes] in Ha. cbn [fixed_width] in Hw.
   destruct (fixed_width e) as [we|] eqn:Ew; [|discriminate]. injection Hw as <-.
   destruct (decode_n_ad e we fuel Had Ha Ew n bs rest Hl) as (vs & Hvs & Hb).
-  cbn [decode_fuel]. unfold array_decode_fixed. rewrite Hvs, Hi. cbn [dbind].
+  cbn [decode_fuel]. unfold array_decode_fixed. rewrite Hvs. cbn [dbind]. unfold array_flatten.
   destruct (is_bits e) eqn:Eb.
   - destruct (chain_vals_vlists vs (Hb eq_refl)) as (f & Hf). rewrite Hf. cbn [dwrap].
     eexists. split; [reflexivity|discriminate].
@@ -356,23 +338,49 @@ Proof.
 Qed.
 
 (* ---- Array(None, T) *)
+Lemma ne_TBits w : NE (TBits w).
+Proof.
+  intros Hwf _ v bs Hd. cbn [wf_ty] in Hwf. cbn [in_dom] in Hd. destruct v; try discriminate Hd.
+  apply andb_prop in Hd as [Hl Hb]. cbn [encode]. rewrite bits_encode_ok by lia.
+  intros H. injection H as <-. intros E. apply (f_equal (@length Z)) in E. rewrite le_enc_length in E. cbn in E. lia.
+Qed.
+
 Lemma rt_TArrAll e : RT e -> NE e -> EM e -> RT (TArrAll e).
 Proof.
   intros Hrt Hne Hem Hwf v rest Hd Hg. rewrite (Hg eq_refl). cbn [wf_ty] in Hwf.
-  apply andb_prop in Hwf as [Hwf Hc]. apply andb_prop in Hwf as [Hwf Hb]. apply andb_prop in Hwf as [Hwf Hgr].
-  apply andb_prop in Hwf as [Hwf Hi]. apply negb_true_iff in Hgr, Hi, Hb.
+  apply andb_prop in Hwf as [Hwf Hc]. apply andb_prop in Hwf as [Hwf Hgr]. apply negb_true_iff in Hgr.
   cbn [in_dom] in Hd. destruct v; try discriminate Hd.
-  destruct (list_good e _ Hrt Hwf Hgr Hd) as (bss & Hbss).
-  pose proof (good_nonempty e l bss Hne Hwf Hc Hd Hbss) as Hnn.
-  exists (concat bss). split.
-  - cbn [encode]. unfold array_encode. cbn [py_len bind]. rewrite Hi.
-    replace (bits_width e) with (@None nat) by (destruct e; try reflexivity; discriminate Hb).
-    replace (Z.to_nat (zlen l)) with (length l) by (unfold zlen; lia).
-    rewrite encode_items_list by lia. cbn [skipn]. rewrite firstn_all.
-    now rewrite (enc_all_good _ _ _ Hbss Hd).
-  - intros fuel Hf. cbn [decode_fuel norm]. unfold array_decode_all. rewrite app_nil_r.
-    rewrite (decode_all_good e l bss fuel fuel Hbss Hnn (Hem Hwf Hc fuel) Hf); [reflexivity|].
-    pose proof (concat_length_ge bss Hnn) as H1. rewrite <- (Forall2_len _ _ _ Hbss) in H1. lia.
+  destruct (is_bits e) eqn:Eb.
+  - (* bit strings: the flat list of bits *)
+    destruct e; try discriminate Eb. apply andb_prop in Hd as [Hm Hb]. pose proof Hwf as Hwfb. cbn [wf_ty] in Hwf.
+    assert (Hw : (0 < w)%nat) by lia.
+    set (n := (length l / (w * 8))%nat).
+    assert (Hlen : length l = (n * (w * 8))%nat).
+    { unfold n. unfold zlen in Hm. pose proof (Nat.div_mod (length l) (w * 8) ltac:(lia)) as Hdm.
+      assert (Z.of_nat (length l mod (w * 8)) = 0).
+      { rewrite Nat2Z.inj_mod. replace (Z.of_nat (w * 8)) with (8 * Z.of_nat w) by lia. lia. }
+      lia. }
+    destruct (bits_array_form None n w l Hw Hlen Hb I) as (xs & bss & Hbss & Hcd & Hxl & Hch & He).
+    pose proof (good_nonempty (TBits w) xs bss (ne_TBits w) Hwfb Hc Hcd Hbss) as Hnn.
+    exists (concat bss). split; [exact He|].
+    intros fuel Hf. cbn [decode_fuel norm is_bits]. unfold array_decode_all. rewrite app_nil_r.
+    change (bits_decode w) with (decode_fuel fuel (TBits w)).
+    rewrite (decode_all_good (TBits w) xs bss fuel fuel Hbss Hnn (em_TBits w Hwfb Hc fuel) Hf).
+    + cbn [dbind array_flatten]. rewrite norm_bits_id, Hch. reflexivity.
+    + pose proof (concat_length_ge bss Hnn) as H1. rewrite <- (Forall2_len _ _ _ Hbss) in H1. lia.
+  - assert (Hd' : forallb (in_dom e) l = true) by (destruct e; try exact Hd; discriminate Eb). clear Hd.
+    destruct (list_good e _ Hrt Hwf Hgr Hd') as (bss & Hbss).
+    pose proof (good_nonempty e l bss Hne Hwf Hc Hd' Hbss) as Hnn.
+    exists (concat bss). split.
+    + cbn [encode]. unfold array_encode. cbn [py_len bind].
+      replace (bits_width e) with (@None nat) by (destruct e; try reflexivity; discriminate Eb).
+      replace (Z.to_nat (zlen l)) with (length l) by (unfold zlen; lia).
+      rewrite encode_items_list by lia. cbn [skipn]. rewrite firstn_all.
+      now rewrite (enc_all_good _ _ _ Hbss Hd').
+    + intros fuel Hf. cbn [decode_fuel norm]. unfold array_decode_all. rewrite app_nil_r, Eb.
+      rewrite (decode_all_good e l bss fuel fuel Hbss Hnn (Hem Hwf Hc fuel) Hf).
+      * cbn [dbind array_flatten dwrap]. destruct e; try reflexivity. discriminate Eb.
+      * pose proof (concat_length_ge bss Hnn) as H1. rewrite <- (Forall2_len _ _ _ Hbss) in H1. lia.
 Qed.
 
 (* ------------------------------------------------------------------ Struct *)
@@ -532,7 +540,10 @@ Proof.
   intros Hrt Hwf Hin Hk Hd Hg. cbn [in_dom] in Hd. destruct v; try discriminate Hd.
   - (* positional *)
     destruct (struct_inner_rt ms l rest Hrt Hwf Hin Hk Hd Hg) as (bs & He & Hdec).
-    exists bs. split; [exact He|]. intros fuel Hf. rewrite (Hdec fuel Hf). reflexivity.
+    exists bs. split.
+    + cbn [struct_encode_inner py_iter bind]. unfold enc_members at 1. rewrite map_length.
+      rewrite (forallb2_length _ _ _ Hd), Nat.ltb_irrefl. exact He.
+    + intros fuel Hf. rewrite (Hdec fuel Hf). reflexivity.
   - (* dict *)
     destruct (dict_values ms d Hd) as (xs & Hx1 & Hx2).
     destruct (struct_inner_rt ms xs rest Hrt Hwf Hin Hk Hx2 Hg) as (bs & He & Hdec).
@@ -596,7 +607,7 @@ Qed.
 Lemma em_TArrFixed n e : EM e -> EM (TArrFixed n e).
 Proof.
   intros Hem Hwf Hc fuel. cbn [wf_ty] in Hwf. cbn [consumes] in Hc.
-  apply andb_prop in Hwf as [Hwf _]. apply andb_prop in Hwf as [Hwf _]. apply andb_prop in Hc as [Hn Hc].
+  apply andb_prop in Hwf as [Hwf _]. apply andb_prop in Hc as [Hn Hc].
   cbn [decode_fuel]. unfold array_decode_fixed. destruct n; [cbn in Hn; discriminate|].
   cbn [decode_n]. now rewrite (Hem Hwf Hc fuel).
 Qed.
@@ -619,10 +630,8 @@ Proof.
   destruct ms as [|m ms]; [discriminate Hc|]. cbn [headb] in Hc. cbn [forallb] in Hwf. apply andb_prop in Hwf as [Hwm _].
   inversion Hem as [|? ? Hm _]; subst.
   cbn [decode_fuel]. unfold structtag_decode. rewrite firstn_nil, skipn_nil.
-  apply andb_prop in Hwm as [Hwm _].
-  destruct m as [[k off] t]. cbn [map stag_decode_members fst snd length Nat.sub].
-  replace (if (0 <? off)%nat then skipn (off - 0) [] else []) with (@nil Z) by (destruct (0 <? off)%nat; [now rewrite skipn_nil|reflexivity]).
-  cbn [snd] in Hm, Hwm, Hc. now rewrite (Hm Hwm Hc fuel).
+  destruct m as [[k off] t]. cbn [map stag_decode_members fst snd length Nat.eqb negb andb].
+  rewrite skipn_nil. cbn [snd] in Hm, Hwm, Hc. apply andb_prop in Hwm as [Hwm _]. now rewrite (Hm Hwm Hc fuel).
 Qed.
 
 (* ------------------------------------------------------------------ STRINGI *)
@@ -682,11 +691,12 @@ Proof.
     unfold named_decode at 1. rewrite ty_of_name_SHORT_STRING.
     assert (Hlang : str_decode false 1 Latin1 (3 :: lang) = DOk (VStr lang) []).
     { destruct (rt_TStr false 1 Latin1 eq_refl (VStr lang) []) as (b & He & Hdec).
-      - cbn [in_dom]. unfold str_dom. rewrite Hlat. reflexivity.
+      - cbn [in_dom]. unfold str_dom. rewrite (latin1_inverts _ Hlat). unfold code_units.
+        rewrite text_encode_single by exact Hlat. reflexivity.
       - discriminate.
-      - cbn [encode] in He. unfold str_encode, pub_encode in He. cbn [py_len bind] in He.
-        rewrite int_encode_ok in He by reflexivity. cbn [bind] in He.
-        rewrite text_encode_single in He by exact Hlat. cbn [bind wrap_all] in He. injection He as <-.
+      - cbn [encode] in He. unfold str_encode, pub_encode in He.
+        rewrite text_encode_single in He by exact Hlat. cbn [bind] in He.
+        rewrite int_encode_ok in He by reflexivity. cbn [bind wrap_all] in He. injection He as <-.
         specialize (Hdec 10%nat ltac:(cbn; lia)). rewrite app_nil_r in Hdec. exact Hdec. }
     rewrite Hlang. cbn [app]. rewrite Ez.
     rewrite (named_int_decode_ok _ _ _ _ _ int_row_UINT) by (try lia; exact Hcs). cbn [dbind].
@@ -695,5 +705,6 @@ Qed.
 Lemma em_TStringI : EM TStringI.
 Proof.
   intros _ _ fuel. cbn [decode_fuel]. unfold stringi_decode, named_int_decode. rewrite int_row_USINT.
-  now rewrite int_decode_nil.
+  now rewrite int_decode_nil by lia.
 Qed.
+
